@@ -1,7 +1,8 @@
 /-
   C08 — the mathematics the threshold-signature libraries rely on, over an ABSTRACT field `F` (scalars) and `F`-module
   `G` (curve points, written additively; `B` the base point). These theorems are about the model of the libraries'
-  algebra — Shamir sharing, refresh with zero-constant polynomials, the tweaked Schnorr equation — NOT about the code of
+  algebra — Shamir sharing, refresh with zero-constant polynomials (FROST; cannot lower a threshold), resharing with freshly dealt
+  polynomials (ECDSA; any new threshold), the tweaked Schnorr equation — NOT about the code of
   threshlib / multi-party-sig, which is only exercised by runs (see checks/C08.json). Parity handling of BIP-340
   (negating shares when the tweaked key has odd y) is left to the library and checked on runs (op `tweak`).
 -/
@@ -25,17 +26,46 @@ theorem shamir_subsets_agree (s s' : Finset ι) (v : ι → F) (hv : Set.InjOn v
       (Lagrange.interpolate s' v (fun i => f.eval (v i))).eval 0 := by
   rw [shamir_reconstruct s v hv f hdeg, shamir_reconstruct s' v hv' f hdeg']
 
-/-- **refresh keeps the key.** Adding to every share the value of a polynomial `g` with `g(0) = 0` — of ANY degree
-    (threshold change) over ANY committee (`v` may name new points) — leaves the secret, hence the public key -/
+/-- **refresh by zero-constant polynomials keeps the key** (the FROST refresh of multi-party-sig: every share gets
+    `g(v i)` added, `g(0) = 0`): the secret, hence the public key, is unchanged — for `g` of any degree -/
 theorem refresh_keeps_key (f g : F[X]) (hg : g.eval 0 = 0) (B : G) :
     ((f + g).eval 0) • B = (f.eval 0) • B := by
   simp [hg]
 
-/-- after a refresh with new threshold `t'`, any `t'+1` holders of refreshed shares reconstruct the OLD secret -/
+/-- … and a set of holders of refreshed shares reconstructs the OLD secret **provided it is larger than BOTH degrees**
+    (`max (deg f) (deg g) < |s|`). With `deg g = t′` this covers RAISING the threshold (`t′ ≥ deg f`, any `t′+1`
+    holders) and keeping it; it does NOT cover lowering it: see `zero_refresh_cannot_lower` -/
 theorem refresh_then_reconstruct (s : Finset ι) (v : ι → F) (hv : Set.InjOn v s) (f g : F[X]) (hg : g.eval 0 = 0)
-    (hdeg : (f + g).degree < s.card) :
+    (hf : f.degree < s.card) (hgd : g.degree < s.card) :
     (Lagrange.interpolate s v (fun i => (f + g).eval (v i))).eval 0 = f.eval 0 := by
+  have hdeg : (f + g).degree < s.card := lt_of_le_of_lt (Polynomial.degree_add_le f g) (max_lt hf hgd)
   rw [shamir_reconstruct s v hv (f + g) hdeg]; simp [hg]
+
+/-- a zero-constant refresh with a polynomial of LOWER degree leaves the sharing polynomial at the old degree: the
+    refreshed shares still need `deg f + 1` holders, whatever new threshold is written next to them -/
+theorem zero_refresh_cannot_lower (f g : F[X]) (h : g.degree < f.degree) : (f + g).degree = f.degree :=
+  Polynomial.degree_add_eq_left_of_degree_lt h
+
+/-- **resharing (threshlib's ECDSA resharing): any new threshold, raised or lowered, any new committee.** Every old
+    holder `i ∈ s` deals a fresh polynomial `h i` whose constant term is its Lagrange-weighted share
+    `λ_i · f(v i)`; the new sharing polynomial is `∑ h i`. Its secret is the old one, whatever the degrees of the
+    `h i` are (they set the NEW threshold) -/
+theorem reshare_keeps_secret (s : Finset ι) (v : ι → F) (hv : Set.InjOn v s) (f : F[X]) (hf : f.degree < s.card)
+    (h : ι → F[X]) (hh : ∀ i ∈ s, (h i).eval 0 = (Lagrange.basis s v i).eval 0 * f.eval (v i)) :
+    (∑ i ∈ s, h i).eval 0 = f.eval 0 := by
+  rw [Polynomial.eval_finsetSum, Finset.sum_congr rfl hh, ← shamir_reconstruct s v hv f hf,
+    Lagrange.interpolate_apply, Polynomial.eval_finsetSum]
+  refine Finset.sum_congr rfl fun i _ => ?_
+  simp [mul_comm]
+
+/-- … so any set `s'` of NEW holders (at points `w`) larger than the degree of the new polynomial reconstructs the
+    old secret: `|s'|` may be smaller (threshold lowered) or larger (raised) than `|s|` -/
+theorem reshare_then_reconstruct {κ : Type*} [DecidableEq κ] (s : Finset ι) (v : ι → F) (hv : Set.InjOn v s) (f : F[X])
+    (hf : f.degree < s.card) (h : ι → F[X])
+    (hh : ∀ i ∈ s, (h i).eval 0 = (Lagrange.basis s v i).eval 0 * f.eval (v i))
+    (s' : Finset κ) (w : κ → F) (hw : Set.InjOn w s') (hdeg : (∑ i ∈ s, h i).degree < s'.card) :
+    (Lagrange.interpolate s' w (fun j => (∑ i ∈ s, h i).eval (w j))).eval 0 = f.eval 0 := by
+  rw [shamir_reconstruct s' w hw _ hdeg, reshare_keeps_secret s v hv f hf h hh]
 
 /-- why a party JOINING through a refresh has no valid share (known finding C08-frost-join): it starts from 0
     instead of `f(v new)`, so it ends with `g(v new)`, which is the share `(f+g)(v new)` only if `f(v new) = 0` -/
@@ -76,5 +106,47 @@ example : (Lagrange.interpolate ({0, 1} : Finset (Fin 3)) (fun i => ((i : ℕ) :
       compute_degree
     exact lt_of_le_of_lt this (by decide)
   rw [shamir_reconstruct _ _ hv _ hd]; simp
+
+/-- RAISING by a zero-constant refresh: `f = 5 + 2X` (threshold 1), `g = X²` (new threshold 2): the three holders at
+    1, 2, 3 reconstruct 5 from the refreshed shares — hypotheses of `refresh_then_reconstruct` met with |s| = 3 -/
+example : (Lagrange.interpolate (Finset.univ : Finset (Fin 3)) (fun i => ((i : ℕ) : ℚ) + 1)
+    (fun i => ((C 5 + C 2 * X : ℚ[X]) + X ^ 2).eval (((i : ℕ) : ℚ) + 1))).eval 0 = (C 5 + C 2 * X : ℚ[X]).eval 0 := by
+  have hv : Set.InjOn (fun i : Fin 3 => ((i : ℕ) : ℚ) + 1) ((Finset.univ : Finset (Fin 3)) : Set (Fin 3)) := by
+    intro a _ b _ h
+    have : ((a : ℕ) : ℚ) = (b : ℕ) := by simpa using h
+    exact Fin.ext (by exact_mod_cast this)
+  refine refresh_then_reconstruct _ _ hv _ _ (by simp) ?_ ?_
+  · exact lt_of_le_of_lt (by compute_degree : (C 5 + C 2 * X : ℚ[X]).degree ≤ 1) (by decide)
+  · exact lt_of_le_of_lt (by compute_degree : (X ^ 2 : ℚ[X]).degree ≤ 2) (by decide)
+
+/-- LOWERING needs a resharing: a zero-constant refresh of `f = 5 + 2X + X²` with `g = 3X` stays at degree 2 -/
+example : ((C 5 + C 2 * X + X ^ 2 : ℚ[X]) + C 3 * X).degree = (C 5 + C 2 * X + X ^ 2 : ℚ[X]).degree := by
+  apply zero_refresh_cannot_lower
+  have h2 : (C 5 + C 2 * X + X ^ 2 : ℚ[X]).degree = 2 := by compute_degree!
+  rw [h2]
+  exact lt_of_le_of_lt (by compute_degree : (C 3 * X : ℚ[X]).degree ≤ 1) (by decide)
+
+/-- LOWERING by a resharing: a secret shared with a polynomial of ANY degree `< |s|` (say threshold 2 among three
+    holders) is re-dealt with polynomials of degree ≤ 1; TWO new holders (at 1 and 2) then reconstruct it — the hypotheses
+    of `reshare_then_reconstruct` are met with `|s'| = 2 < |s| = 3` -/
+example (f : ℚ[X]) (hf : f.degree < (Finset.univ : Finset (Fin 3)).card) (c : Fin 3 → ℚ) :
+    let v : Fin 3 → ℚ := fun i => ((i : ℕ) : ℚ) + 1
+    let h : Fin 3 → ℚ[X] := fun i => C ((Lagrange.basis Finset.univ v i).eval 0 * f.eval (v i)) + C (c i) * X
+    (Lagrange.interpolate (Finset.univ : Finset (Fin 2)) (fun j => ((j : ℕ) : ℚ) + 1)
+      (fun j => (∑ i, h i).eval (((j : ℕ) : ℚ) + 1))).eval 0 = f.eval 0 := by
+  intro v h
+  have hv : Set.InjOn v ((Finset.univ : Finset (Fin 3)) : Set (Fin 3)) := by
+    intro a _ b _ hab
+    have : ((a : ℕ) : ℚ) = (b : ℕ) := by simpa [v] using hab
+    exact Fin.ext (by exact_mod_cast this)
+  have hw : Set.InjOn (fun j : Fin 2 => ((j : ℕ) : ℚ) + 1) ((Finset.univ : Finset (Fin 2)) : Set (Fin 2)) := by
+    intro a _ b _ hab
+    have : ((a : ℕ) : ℚ) = (b : ℕ) := by simpa using hab
+    exact Fin.ext (by exact_mod_cast this)
+  refine reshare_then_reconstruct Finset.univ v hv f hf h (fun i _ => by simp [h]) Finset.univ _ hw ?_
+  have : (∑ i, h i).degree ≤ 1 := by
+    refine (Polynomial.degree_sum_le _ _).trans (Finset.sup_le fun i _ => ?_)
+    simp only [h]; compute_degree
+  exact lt_of_le_of_lt this (by decide)
 
 end Sygma.C08.Algebra
